@@ -117,9 +117,14 @@ trait Proj: Problem + Clone + Send + Sync + 'static {
     fn component(&self, op: &str, n: u32, prob: f64) -> Option<Box<dyn Component<Self>>>;
     /// concrete solution for an abstract prepared individual (replay) or raw bits (random mode)
     fn concretize(&self, abstract_x: &[Value], raw: Option<&Vec<Value>>) -> Self::Encoding;
+    /// some legal objective value for a prepared, already evaluated individual
+    fn any_objective(&self, _sol: &Self::Encoding) -> Self::Objective;
 }
 
 impl Proj for RealProblem {
+    fn any_objective(&self, _sol: &Self::Encoding) -> Self::Objective {
+        1.5.try_into().unwrap()
+    }
     fn project(&self, sol: &Vec<f64>) -> Vec<Value> {
         sol.iter()
             .enumerate()
@@ -174,6 +179,9 @@ impl Proj for RealProblem {
 }
 
 impl Proj for PermProblem {
+    fn any_objective(&self, _sol: &Self::Encoding) -> Self::Objective {
+        1.5.try_into().unwrap()
+    }
     fn project(&self, sol: &Vec<usize>) -> Vec<Value> {
         sol.iter().map(|x| coord("int", *x as i64)).collect()
     }
@@ -193,6 +201,9 @@ impl Proj for PermProblem {
 }
 
 impl Proj for BitProblem {
+    fn any_objective(&self, _sol: &Self::Encoding) -> Self::Objective {
+        1.5.try_into().unwrap()
+    }
     fn project(&self, sol: &Vec<bool>) -> Vec<Value> {
         sol.iter().map(|x| coord("int", *x as i64)).collect()
     }
@@ -271,7 +282,14 @@ fn worker<P: Proj>(problem: P, run: u64, kind: String, acts: Vec<Value>, seed: u
                 .enumerate()
                 .map(|(idx, ind)| {
                     let r = raw.map(|r| r[idx].as_array().unwrap());
-                    Individual::new_unevaluated(problem.concretize(ind["x"].as_array().unwrap(), r))
+                    let sol = problem.concretize(ind["x"].as_array().unwrap(), r);
+                    if ind["ev"].as_i64() == Some(1) {
+                        // repair after evaluation: the individual already carries an objective value
+                        let obj = problem.any_objective(&sol);
+                        Individual::new(sol, obj)
+                    } else {
+                        Individual::new_unevaluated(sol)
+                    }
                 })
                 .collect();
             p = project_pop(&problem, &pop);
@@ -426,7 +444,7 @@ fn random_real_run(run: u64, seed: u64, rng: &mut ChaCha8Rng) -> RunSpec {
         acts.push(json!({"op": "random_spread", "n": rng.gen_range(0..=6), "p": []}));
     }
     acts.push(json!({"op": "set_pop", "n": NON,
-        "p": raw.iter().map(|ind| json!({"ev": 0, "x": ind.iter().map(|_| coord("raw", NOK)).collect::<Vec<_>>()})).collect::<Vec<_>>(),
+        "p": raw.iter().map(|ind| json!({"ev": rng.gen_range(0..2), "x": ind.iter().map(|_| coord("raw", NOK)).collect::<Vec<_>>()})).collect::<Vec<_>>(),
         "raw": raw.iter().map(|ind| ind.iter().map(|x| fbits(*x)).collect::<Vec<_>>()).collect::<Vec<_>>()}));
     let ops = ["saturation", "toroidal", "mirror", "cotnc"];
     for _ in 0..rng.gen_range(1..=3) {
